@@ -12,10 +12,10 @@ from pathlib import Path
 
 VERIF = Path(__file__).resolve().parent.parent
 REPO = Path(os.environ.get('VERIF_REPO', '/repo'))
-LEAN = VERIF / 'lean'
+LEAN = Path(os.environ.get('VERIF_LEAN', str(VERIF / 'lean')))
 DRIVER = LEAN / '.lake' / 'build' / 'bin' / 'amqp_driver'
-EVIDENCE = VERIF / 'evidence'
-REPLAYS = VERIF / 'replays'
+EVIDENCE = Path(os.environ.get('VERIF_EVIDENCE', str(VERIF / 'evidence')))
+REPLAYS = Path(os.environ.get('VERIF_REPLAYS', str(VERIF / 'replays')))
 CORPUS = VERIF / 'corpus'
 KNOWN = VERIF / 'known_findings.json'
 
@@ -42,6 +42,13 @@ def seed():
 def tier(argv_tier=None):
     t = argv_tier or os.environ.get('VERIF_TIER') or 'quick'
     return t if t in ('quick', 'thorough') else 'quick'
+
+
+def _rel(path):
+    try:
+        return path.relative_to(VERIF)
+    except ValueError:
+        return path
 
 
 @contextlib.contextmanager
@@ -298,7 +305,7 @@ class Report:
                     'property': self.prop, 'signature': sig, 'what': v.what, 'seed': self.seed,
                     'tier': self.tier, 'replay': v.replay, 'broken_obligations': broken,
                 }, indent=1, default=str))
-                out_lines.append('VIOLATION property=%s replay=%s' % (self.prop, path.relative_to(VERIF)))
+                out_lines.append('VIOLATION property=%s replay=%s' % (self.prop, _rel(path)))
                 nviol += 1
             exit_code = 1
         elif broken:
@@ -313,7 +320,7 @@ class Report:
                 'note': 'the theorem(s)/correspondence named here no longer check against the current /repo tree; '
                         'the failing-input search on the real code found no concrete violating input within its budget',
             }, indent=1, default=str))
-            out_lines.append('VIOLATION property=%s replay=%s no-failing-input-found' % (self.prop, path.relative_to(VERIF)))
+            out_lines.append('VIOLATION property=%s replay=%s no-failing-input-found' % (self.prop, _rel(path)))
             nviol += 1
             exit_code = 1
         if self.infra_errors and exit_code == 0:
